@@ -63,13 +63,14 @@ var props = []*PropDef{
 	},
 	{
 		ID:     "C04",
+		Funcs:  []string{"pdf417.(securitylevel).Compute"},
 		Unwind: []*Unwinder{unwPDF},
 		Tables: []string{"pdf417/tables", "pdf417/textmaps", "pdf417/pattern-values-pinned"},
 		Harness: []Harness{
 			{Pkg: "pdf417", File: "c04_pdf_test.go", Run: "^TestVerifC04$", Bound: boundedNote + "full round trip through the independent ISO 15438 reader pdfspec.Decode (text/byte/numeric compaction with all latches and shifts, RS over GF(929)): punctuation-pad family, all strings of length <= 4 over 8 symbols, digit/byte run boundaries, capacity limits, seeded random contents"},
 		},
-		Assumptions: []string{asmBitlist, asmStages, "PDF417 codeword pattern VALUES are trusted up to structure (17 modules, 4 bars/4 spaces, cluster number, distinct within cluster): the 2787-entry ISO listing cannot be reproduced offline", "RS validity over GF(929): generator coefficients are checked [T]; securitylevel.Compute itself is bounded"},
-		Note:        "[C] EncodeWithColor unwound for (data codeword count, level) configurations (quick: ~120, thorough: every n for every level) with symbolic codewords: acceptance iff the codewords fit the library's 30x30 limit, dimension limits, padding < one row, length descriptor, pad codewords 900, 2^(level+1) check words, left/right row indicators per ISO 15438 (independent formulas), cluster 3*(row mod 3) patterns, start/stop, 17/18 modules, width. [T] correctionFactors = coefficients of prod(x-3^i) mod 929; pattern table structure; text sub-mode tables.",
+		Assumptions: []string{asmBitlist, asmStages, "PDF417 codeword pattern VALUES are trusted up to structure (17 modules, 4 bars/4 spaces, cluster number, distinct within cluster): the 2787-entry ISO listing cannot be reproduced offline", "RS over GF(929): Compute is proved equal to the standard's division circuit (recursive spec function) over the generator coefficients checked by [T]; that this circuit computes the polynomial remainder is the standard's own definition of the procedure, not re-derived"},
+		Note:        "[C] EncodeWithColor unwound for (data codeword count, level) configurations (quick: ~120, thorough: every n for every level) with symbolic codewords: acceptance iff the codewords fit the library's 30x30 limit, dimension limits, padding < one row, length descriptor, pad codewords 900, 2^(level+1) check words, left/right row indicators per ISO 15438 (independent formulas), cluster 3*(row mod 3) patterns, start/stop, 17/18 modules, width. [T] correctionFactors = coefficients of prod(x-3^i) mod 929; pattern table structure; text sub-mode tables. [P] securitylevel.Compute for every level 0..8 and every data sequence: the result is the complement of the register of the ISO 15438 division circuit after all data codewords (loop invariants over the three real loops; in-place register update).",
 	},
 	{
 		ID:     "C05",
@@ -171,6 +172,7 @@ var props = []*PropDef{
 	},
 	{
 		ID:     "C12",
+		Funcs:  []string{"pdf417.(securitylevel).Compute"},
 		Unwind: []*Unwinder{unwPDF, unwDM, unwQR, unwQRBlocks, unwSelect, unwAztec},
 		Only:   map[string]string{"aztec": `/(ecc-honoured|fits|words|totalbits|wordsize|stuff-wordsize)$|/pre/aztec\.generateCheckWords`},
 		Tables: []string{"qr/versionInfos", "qr/formatInfos", "dm/codeSizes", "pdf417/tables"},
@@ -181,7 +183,7 @@ var props = []*PropDef{
 			{Pkg: "datamatrix", File: "c02_dm_test.go", Run: "^TestVerifC12DM$", Bound: boundedNote},
 		},
 		Assumptions: []string{asmRS, "Aztec: stuffBits is abstracted by its contract (length bounds; its length is the spec function azStuffLen(bits, wordSize)); the check-word count is what generateCheckWords is asked for (its body: C17 / bounded)"},
-		Note:        "QR: [C] drawFormatInfo writes the BCH word of the row's level ([T] formatInfos) into both copies, [T] block table = ISO check-word counts. PDF417: [C] indicators carry 3*level + (rows-1) mod 3 per ISO, Compute is asked for and the symbol holds 2^(level+1) check words. DataMatrix: [C]+[T] ECC 200 counts per size. Aztec: [C] for each of the 36 explicit sizes and for every path of the automatic selection, the accepted size holds the stuffed data plus eccBits = bits*pct/100 + 11 check bits within its usable bits (ecc-honoured / fits), for all payloads and every non-negative int percentage.",
+		Note:        "QR: [C] drawFormatInfo writes the BCH word of the row's level ([T] formatInfos) into both copies, [T] block table = ISO check-word counts. PDF417: [C] indicators carry 3*level + (rows-1) mod 3 per ISO, Compute is asked for and the symbol holds 2^(level+1) check words, which [P] are the complemented remainder of the ISO division circuit over the [T]-checked generator. DataMatrix: [C]+[T] ECC 200 counts per size. Aztec: [C] for each of the 36 explicit sizes and for every path of the automatic selection, the accepted size holds the stuffed data plus eccBits = bits*pct/100 + 11 check bits within its usable bits (ecc-honoured / fits), for all payloads and every non-negative int percentage.",
 	},
 	{
 		ID:     "C13",
